@@ -15,7 +15,7 @@ func init() {
 	registerProperty(&PropertyInfo{
 		ID:    "C19",
 		Title: "Merge plans are well-formed and keep the segment count bounded",
-		Rules: []string{"C19.R1", "C19.R2", "C19.R3", "C19.R4", "C19.R5", "C14.R2", "C14.R1"},
+		Rules: []string{"C19.R1", "C19.R2", "C19.R3", "C19.R4", "C19.R5", "C19.R6", "C14.R2", "C14.R1"},
 		Decides: "shape conditions of a well-formed, deterministic plan: the planner package constructs no Segment of its own and every segment put into a task derives from the input list; after every task is appended the eligible list is reassigned to removeSegments(<the eligible list>, <that task's segments>) before the next task can be formed (disjoint tasks), and the list it filters is the eligible list, not the full input; a segment joins a roster only behind a comparison that reads MaxSegmentSize and the running roster size, and becomes eligible only behind a comparison with MaxSegmentSize/2; the functions reachable from Plan contain no map iteration, select, go statement or call into math/rand or time, and the sort comparator falls back to the segment id; while over budget, planning stops early only when no roster at all could be formed. the merger's progress marker does not advance when planning/executing the merge failed (C14.R2). a failed merge task makes planning fail, so the merger retries it (C14.R1).",
 		NotCovered: "convergence and the logarithmic bound over histories of arrivals (a statement about sequences of plans, not about the shape of one).",
 	})
